@@ -23,7 +23,10 @@ type hllHandle interface {
 
 type hllMem struct{ h *gostatix.HyperLogLog }
 
-func (x hllMem) Update(d []byte) error            { x.h.Update(d); return nil }
+func (x hllMem) Update(d []byte) error {
+	viaScratch(d, func(a []byte) { x.h.Update(a) })
+	return nil
+}
 func (x hllMem) Count(c, r bool) (uint64, error)  { return x.h.Count(c, r), nil }
 func (x hllMem) Merge(o hllHandle) error          { return x.h.Merge(o.(hllMem).h) }
 func (x hllMem) Equals(o hllHandle) (bool, error) { return x.h.Equals(o.(hllMem).h), nil }
@@ -31,7 +34,10 @@ func (x hllMem) Export() ([]byte, error)          { return x.h.Export() }
 
 type hllRedis struct{ h *gostatix.HyperLogLogRedis }
 
-func (x hllRedis) Update(d []byte) error            { return x.h.Update(d) }
+func (x hllRedis) Update(d []byte) (err error) {
+	viaScratch(d, func(a []byte) { err = x.h.Update(a) })
+	return
+}
 func (x hllRedis) Count(c, r bool) (uint64, error)  { return x.h.Count(c, r) }
 func (x hllRedis) Merge(o hllHandle) error          { return x.h.Merge(hllUnder(o)) }
 func (x hllRedis) Equals(o hllHandle) (bool, error) { return x.h.Equals(hllUnder(o)) }
@@ -293,6 +299,35 @@ func hllCase(c *Ctx, m uint64, redis bool) {
 		}
 	}
 	hllCraftedMerge(c, m, redis, cfg)
+	// merge chain: a sketch that only ever received merges is merged onwards:
+	//   E := {} + X0' ; T := Y' + E  must be the single sketch again (X0', Y' = the two halves)
+	{
+		X0c, _ := newHLL(m, redis)
+		Yc, _ := newHLL(m, redis)
+		for _, j := range stream[:cut] {
+			X0c.Update(pool[j])
+		}
+		for _, j := range stream[cut:] {
+			Yc.Update(pool[j])
+		}
+		E, _ := newHLL(m, redis)
+		E2, _ := newHLL(m, redis)
+		E.Merge(X0c)
+		E2.Merge(E) // two hops
+		Yc.Merge(E2)
+		rc, _ := hllRegs(Yc)
+		re, _ := hllRegs(E2)
+		rx0, _ := hllRegs(X0c)
+		if !eqU64(re, rx0) {
+			c.fail([]string{"C06", "C08"}, "hll-merge-chain", fmt.Sprintf("%s: a sketch filled only by merges (two hops) differs from its source", cfg), replay)
+			return
+		}
+		if !eqU64(rc, regsA) {
+			c.fail([]string{"C06", "C08"}, "hll-merge-chain", fmt.Sprintf("%s: merging through intermediate sketches that only received merges loses registers (split at %d)", cfg, cut), replay)
+			return
+		}
+		c.branch("merge-chain")
+	}
 	// idempotent: merging Y again, and merging a sketch with itself, change nothing
 	X.Merge(Y)
 	X.Merge(X)
